@@ -8,6 +8,7 @@ S = 'photutils/segmentation/catalog.py::SourceCatalog'
 
 
 def register(reg):
+    register_fluxerr(reg)
     box = '(0, data_cutout.shape[0]), (0, data_cutout.shape[1])'
     for tag, mspec, mreq, mcl in (
             ('mask', ('arr', 2, 'bool'), ['mask_cutout.shape == data_cutout.shape'],
@@ -81,4 +82,21 @@ def register(reg):
         mutants=[('| (convdata_cutout < 0) | total_mask', '| (convdata_cutout <= 0) & total_mask'),
                  ('| (convdata_cutout < 0) | total_mask', '| total_mask'),
                  ('cutout[convdata_mask] = 0.0', 'cutout[~convdata_mask] = 0.0')],
+    ))
+
+
+def register_fluxerr(reg):
+    """segment_fluxerr = sqrt(sum of squared total errors over the source's good pixels): the
+    squares must be taken in float -- error maps arrive in any dtype (C15), and narrow integer
+    squares wrap around silently."""
+    reg.record('SourceCatalogErr', {
+        '_error': ('const', 'given'), '_data_unit': None,
+        '_error_values': ('seq', ('arr', 1, 'real', 'anydtype'))})
+    reg.add(Contract(
+        target=f'{S}.segment_fluxerr', props=['C07'], kind='property',
+        params={'self': 'SourceCatalogErr'},
+        ensures=[('one-value-per-source', 'len(result) == len(self._error_values)')],
+        note='the decisive obligation is the in-body one: squares are taken after astype(float)',
+        mutants=[('np.sum(arr.astype(float)**2)', 'np.sum(arr**2, dtype=float)'),
+                 ('np.sum(arr.astype(float)**2)', 'np.sum((arr * arr).astype(float))')],
     ))
